@@ -10,6 +10,7 @@ import collections
 import importlib
 import inspect
 import json
+import os
 import re
 import sys
 import time
@@ -48,6 +49,11 @@ def main():
     from crosshair.core_and_libs import analyze_function
     from crosshair.options import AnalysisOptionSet
     from crosshair.statespace import MessageType
+    if os.environ.get('CH_PRECISE_FLOATS') == '1':
+        # CrossHair's real-valued float model is an approximation (it caps every verdict at UNKNOWN); contracts whose
+        # code compares symbolic ints with float literals are run with the exact IEEE binary64 model only.
+        from crosshair.libimpl import builtinslib
+        builtinslib._PYTYPE_TO_WRAPPER_TYPE[float] = ((builtinslib.PreciseIeeeSymbolicFloat, 1.0),)
     mod = importlib.import_module(modname)
     fn = getattr(mod, fname)
     if twin:
